@@ -88,6 +88,10 @@ def fmt(t):
         return "(%s %s)" % (t[1], fmt(t[2]))
     if k == "fresh":
         return "<%s>" % t[1]
+    if k == "newlist":
+        return "[]#%d" % t[1]
+    if k == "newdict":
+        return "{}#%d" % t[1]
     if k == "ifexp":
         return "(%s if %s else %s)" % (fmt(t[2]), fmt_atom(t[1]), fmt(t[3]))
     if k == "bool":
@@ -505,7 +509,8 @@ class Interp:
     def is_none(self, t):
         if is_const(t):
             return t[1] is None
-        if t[0] in ("tuple", "list", "dict", "bool", "closure", "fstr"):
+        if t[0] in ("tuple", "list", "dict", "bool", "closure", "fstr",
+                    "newlist", "newdict"):
             return False
         return self.decide(("isnone", t))
 
@@ -530,8 +535,16 @@ class Interp:
         if isinstance(node, ast.Tuple):
             return ("tuple", tuple(self.eval(e, env) for e in node.elts))
         if isinstance(node, ast.List):
+            if not node.elts:
+                # an empty display is a fresh mutable object: later appends
+                # are effects, its truthiness is not known statically
+                self.fresh_counter += 1
+                return ("newlist", self.fresh_counter)
             return ("list", tuple(self.eval(e, env) for e in node.elts))
         if isinstance(node, ast.Dict):
+            if not node.keys:
+                self.fresh_counter += 1
+                return ("newdict", self.fresh_counter)
             return ("dict", tuple((self.eval(k, env), self.eval(v, env))
                                   for k, v in zip(node.keys, node.values)))
         if isinstance(node, ast.JoinedStr):
@@ -706,6 +719,9 @@ class Interp:
                 if c.how == "ctor":
                     return recv
                 return r
+        if ft[0] == "global" and args and self._is_exception_class(ft[1]):
+            # the wording of an error message is not behaviour we compare
+            args = (const("<message>"),) + args[1:]
         t = ("call", ft, args, kws)
         if not self.is_pure(ft):
             self.path.effects.append(("call", t, node))
@@ -726,6 +742,15 @@ class Interp:
                 and is_const(args[0]) and isinstance(args[0][1], str):
             return args[0]
         return t
+
+    def _is_exception_class(self, qual):
+        if qual in self.m.classes:
+            return self.m.is_subclass(qual, "builtins.BaseException")
+        if qual.startswith("builtins."):
+            import builtins
+            obj = getattr(builtins, qual[9:], None)
+            return isinstance(obj, type) and issubclass(obj, BaseException)
+        return False
 
     def is_pure(self, ft):
         if ft[0] == "global" and ft[1].startswith("builtins.") \
